@@ -742,8 +742,26 @@ Definition apply_attr (params : list (str * str)) (r : res var) (attr : str) : r
     end
   else Ok (set_attribs v (v_attribs v ++ [attr])).
 
+Fixpoint dict_remove (k : str) (d : dict) : dict :=
+  match d with
+  | [] => []
+  | (k', vs) :: d' => if seqb k k' then d' else (k', vs) :: dict_remove k d'
+  end.
+
+(* the entry of a name is deleted once a variable of that name has been served: a second
+   variable with the same name gets nothing *)
+Fixpoint process_go (params : list (str * str)) (d : dict) (vars : list var) : res (list var) :=
+  match vars with
+  | [] => Ok []
+  | v :: vars' =>
+    let k := lower (v_name v) in
+    do v' <- fold_left (apply_attr params) (dict_get k d) (Ok v);
+    do rest <- process_go params (dict_remove k d) vars';
+    Ok (v' :: rest)
+  end.
+
 Definition process_attribs (st : attr_state) (vars : list var) : res (list var) :=
-  mapM (fun v => fold_left (apply_attr (as_param st)) (dict_get (lower (v_name v)) (as_attr st)) (Ok v)) vars.
+  process_go (as_param st) (as_attr st) vars.
 
 (* ------------------------------------------------------------------ procedures *)
 Definition proc_keywords : list str :=
